@@ -47,7 +47,7 @@ mpz_get_str (char *res_str, int base, mpz_srcptr x)
   size_t str_size;
   size_t alloc_size = 0;
   const char *num_to_text;
-  int i;
+  size_t i;
   TMP_DECL;
 
   if (base >= 0)
